@@ -384,7 +384,8 @@ func (c *Ctx) ruleC19() {
 		})
 		ok := false
 		for _, bl := range c.banLookups(f, ban) {
-			if call, isCall := ast.Unparen(bl.key).(*ast.CallExpr); isCall {
+			// the key as written, or a local that holds it (kind := d.Type())
+			if call, isCall := ast.Unparen(unalias(f, bl.key)).(*ast.CallExpr); isCall {
 				if cal := callee(pk, call); cal != nil && cal.Name() == "Type" && dispNode != nil && cf.dominatedBy(dispNode, bl.at()) {
 					ok = true
 				}
